@@ -282,7 +282,9 @@ func (b *assignmentBuilder) createWithConverter(lhs, rhs bmodel.Node, converter 
 		}
 
 		rhsNode, ok := b.resolveExpr(converter.Src(), root)
-		if !ok {
+		if !ok || rhsNode.ReturnsError() {
+			// A getter that also returns an error cannot be nested in the
+			// converter call: its error would go unchecked.
 			return nil
 		}
 
